@@ -331,6 +331,12 @@ fn gen_case(seed: u64, i: u64) -> Case {
     } else {
         rd
     };
+    let rd = if r.chance(1, 15) {
+        // a byte-order mark at the start of the file must pass through like any other text
+        crate::doc::Rendered { text: format!("\u{feff}{}", rd.text), elems: vec![] }
+    } else {
+        rd
+    };
     let text = match r.below(12) {
         0 => rd.text.replace('\n', "\r\n"),
         1 => {
